@@ -287,4 +287,39 @@ pub fn sane_f32(bits: u32) -> f32 {
     }
 }
 
+
+/// message-local flag struct: what its typed constructors put into the integer
+pub struct SynthCase {
+    pub method: &'static str,
+    /// enumerator of the wowm flag the constructor stands for
+    pub constant: &'static str,
+    pub new: Option<fn() -> i128>,
+    pub set: Option<fn() -> i128>,
+}
+
+impl SynthCase {
+    pub fn skipped(method: &'static str) -> Self {
+        SynthCase { method, constant: "", new: None, set: None }
+    }
+}
+
+pub struct SynthAdapter {
+    pub path: &'static str,
+    pub flag: &'static str,
+    pub nss: &'static [&'static str],
+    pub cases: Vec<SynthCase>,
+}
+
+#[macro_export]
+macro_rules! synth_case {
+    ($ty:path, $method:literal, $k:literal, $new:ident, $set:ident, ()) => {
+        SynthCase { method: $method, constant: $k, new: Some(|| raw_of(&<$ty>::$new())), set: Some(|| raw_of(&<$ty>::empty().$set())) }
+    };
+    ($ty:path, $method:literal, $k:literal, $new:ident, $set:ident, ($arg:expr)) => {
+        SynthCase { method: $method, constant: $k, new: Some(|| raw_of(&<$ty>::$new($arg))), set: Some(|| raw_of(&<$ty>::empty().$set($arg))) }
+    };
+}
+
+
 include!(concat!(env!("OUT_DIR"), "/typed_tables.rs"));
+
